@@ -271,6 +271,7 @@ func genCase(t *rapid.T) Case {
 	}
 	c.Finish = rapid.SampledFrom([]string{"stop", "stop", "length", "tool_calls", "tool_calls", "null", "omit", "content_filter", "function_call", "eos"}).Draw(t, "finish")
 	c.Usage = rapid.SampledFrom([]string{"absent", "finish", "finish", "trailing", "trailing"}).Draw(t, "usage")
+	c.FinishInline = rapid.IntRange(0, 2).Draw(t, "finishInline") == 0
 	if c.Usage != "absent" {
 		c.Prompt = rapid.IntRange(0, 250000).Draw(t, "prompt")
 		c.Completion = rapid.IntRange(0, 40000).Draw(t, "completion")
@@ -414,6 +415,9 @@ func classify(c Case, exp []expBlock, argFrags []int, streamLen int) {
 		}
 	}
 	rec.Class("finish=" + c.Finish)
+	if c.FinishInline {
+		rec.Class("finish-on-last-delta-chunk")
+	}
 	rec.Class("usage=" + c.Usage)
 	if c.CRLF {
 		rec.Class("line-endings=CRLF")
@@ -449,7 +453,7 @@ func planHash(c Case) uint64 {
 	for _, s := range c.Segs {
 		fmt.Fprintf(h, "%s|%d|%d|%v|%v;", s.Kind, len(s.Text), len(s.Args)+s.Pad, s.Frag, s.HeadFirst)
 	}
-	fmt.Fprintf(h, "%v|%v|%v|%v|%v|%s|%s", c.Reader, c.CRLF, c.EOFWithData, c.OmitDone, c.Noise, c.Finish, c.Usage)
+	fmt.Fprintf(h, "%v|%v|%v|%v|%v|%s|%s|%v", c.Reader, c.CRLF, c.EOFWithData, c.OmitDone, c.Noise, c.Finish, c.Usage, c.FinishInline)
 	return h.Sum64()
 }
 
@@ -876,7 +880,7 @@ func hostileProbes() []HCase {
 }
 
 func TestC13(t *testing.T) {
-	rec.SetRule("rapid-generated completions = segment lists text|tool (0..4 tools, 14 fixed shapes + free interleavings of up to 7 segments, unicode incl. 4-byte runes / CRLF / SSE look-alikes in text, JSON-object arguments in 3 spellings, 1 in 60 padded to 2 KiB..256 KiB) x finish_reason {stop,length,tool_calls,null,omitted,3 others} x usage {absent, finish chunk, trailing choices:[] chunk} rendered to OpenAI SSE (text per rune..single delta; tool head delta + argument fragments cut at any rune) x LF|CRLF x reader pieces (1 byte .. whole) x optional content-free noise lines; non-trivial = >=2 blocks after merging or a tool call whose arguments arrive in >=2 fragments; distinct by (block skeleton, hash of fragment plans + reader plan + line endings + noise + finish/usage placement). Sub-check 'hostile': arbitrary interleavings of tool fragments, id/name split across deltas, mistyped members, raw bytes: termination clause only.")
+	rec.SetRule("rapid-generated completions = segment lists text|tool (0..4 tools, 14 fixed shapes + free interleavings of up to 7 segments, unicode incl. 4-byte runes / CRLF / SSE look-alikes in text, JSON-object arguments in 3 spellings, 1 in 60 padded to 2 KiB..256 KiB) x finish_reason {stop,length,tool_calls,null,omitted,3 others} x finish placement {own empty-delta chunk, on the last content/tool delta chunk} x usage {absent, finish chunk, trailing choices:[] chunk} rendered to OpenAI SSE (text per rune..single delta; tool head delta + argument fragments cut at any rune) x LF|CRLF x reader pieces (1 byte .. whole) x optional content-free noise lines; non-trivial = >=2 blocks after merging or a tool call whose arguments arrive in >=2 fragments; distinct by (block skeleton, hash of fragment plans + reader plan + line endings + noise + finish/usage placement). Sub-check 'hostile': arbitrary interleavings of tool fragments, id/name split across deltas, mistyped members, raw bytes: termination clause only.")
 	rec.Assume("argument fragments are cut at rune boundaries (a JSON string delta cannot carry half a rune); fragments of one tool call are contiguous and every tool call starts with a delta carrying id and name, as OpenAI/vLLM/Ollama emit them")
 	rec.Assume("input_tokens is accepted in message_start or in message_delta; when the backend sends no usage nothing is asserted about the numbers except stream/buffered agreement")
 	rec.Assume("for finish_reason absent or outside {stop,length,tool_calls} only membership in Anthropic's stop_reason set and stream/buffered agreement are asserted")
